@@ -158,7 +158,8 @@ def _masked_nonzero(f: Func, cond_left: ast.expr) -> bool:
                 if src(t) == m.id and isinstance(s.value, ast.Compare) and isinstance(s.value.ops[0], ast.NotEq) and \
                         src(s.value.left) == v and isinstance(s.value.comparators[0], ast.Constant) and s.value.comparators[0].value == 0:
                     return True
-    if isinstance(m, ast.Compare) and isinstance(m.ops[0], ast.NotEq) and src(m.left) == v:
+    if isinstance(m, ast.Compare) and len(m.ops) == 1 and isinstance(m.ops[0], ast.NotEq) and src(m.left) == v \
+            and isinstance(m.comparators[0], ast.Constant) and not isinstance(m.comparators[0].value, bool) and m.comparators[0].value == 0:
         return True
     return False
 
@@ -344,7 +345,7 @@ def rule_alpha(ctx: Ctx) -> List[Ob]:
                 whyh.append(f"{e.value}")
                 continue
             good = isinstance(e, ast.Call) and dotted(e.func) in ("min", "np.minimum") and len(e.args) == 2 and \
-                any(isinstance(a, ast.Constant) and 0 <= a.value <= 1 for a in e.args)
+                any(isinstance(a, ast.Constant) and not isinstance(a.value, bool) and a.value == 1 for a in e.args)
             if good:
                 other = [a for a in e.args if not isinstance(a, ast.Constant)][0]
                 sg = _sign_with_where(Signs("lb", "ub", {"xc", "x"}), other)
@@ -386,7 +387,7 @@ def rule_alpha(ctx: Ctx) -> List[Ob]:
                 whyl.append(f"{e.value}")
                 continue
             good = isinstance(e, ast.Call) and dotted(e.func) in ("min", "np.minimum") and len(e.args) == 2 and \
-                any(isinstance(a, ast.Constant) and isinstance(a.value, (int, float)) and 0 <= a.value <= 1 for a in e.args)
+                any(isinstance(a, ast.Constant) and isinstance(a.value, (int, float)) and not isinstance(a.value, bool) and a.value == 1 for a in e.args)
             if good:
                 other = [a for a in e.args if not isinstance(a, ast.Constant)]
                 sg = _sign_with_where(Signs("lb", "ub", {"xc", "x"}), other[0]) if other else NONNEG
@@ -405,7 +406,8 @@ def rule_alpha(ctx: Ctx) -> List[Ob]:
     elif ok:
         consts = [a for a in v.args if isinstance(a, ast.Constant)]
         others = [a for a in v.args if not isinstance(a, ast.Constant)]
-        ok = len(consts) == 1 and isinstance(consts[0].value, (int, float)) and 0 <= consts[0].value <= 1 and len(others) == 1
+        # the full Newton step is taken whenever it is feasible: the cap is exactly 1
+        ok = len(consts) == 1 and isinstance(consts[0].value, (int, float)) and not isinstance(consts[0].value, bool) and consts[0].value == 1 and len(others) == 1
         if ok:
             # distribute a division outside the np.where inside nanmin(...)
             e = others[0]
@@ -413,7 +415,7 @@ def rule_alpha(ctx: Ctx) -> List[Ob]:
             ok = sgn in (NONNEG, POS, ZERO)
             why += f"; cap {consts[0].value}; sign(other operand) = {sgn}"
         else:
-            why += ": not min(<constant in [0,1]>, e)"
+            why += ": not min(1, e) -- with another cap the point is not the (truncated) Newton point of the model"
     else:
         why += ": not a min(...) -- a factor above 1 overshoots the model minimiser, a missing cap leaves the box"
     if helper is None:
@@ -427,6 +429,22 @@ def rule_alpha(ctx: Ctx) -> List[Ob]:
         okr = len(uses) == 1 and isinstance(e, ast.BinOp) and isinstance(e.op, ast.Add) and src(e.left) == "xc" and \
             isinstance(e.right, ast.BinOp) and isinstance(e.right.op, (ast.Mult, ast.MatMult)) and \
             any(isinstance(x, ast.Name) and x.id == name for x in ast.walk(e.right))
+        if okr:
+            # the step is a pure product alpha * Z * dHat (in any association): no quotient, no other factor
+            facs: List[ast.expr] = []
+
+            def flat_(x):
+                if isinstance(x, ast.BinOp) and isinstance(x.op, (ast.Mult, ast.MatMult)):
+                    flat_(x.left)
+                    flat_(x.right)
+                elif isinstance(x, ast.Call) and isinstance(x.func, ast.Attribute) and x.func.attr == "dot" and len(x.args) == 1:
+                    flat_(x.func.value)
+                    flat_(x.args[0])
+                else:
+                    facs.append(x)
+            flat_(e.right)
+            okr = len(facs) == 3 and sum(1 for x in facs if isinstance(x, ast.Name) and x.id == name) == 1 and \
+                all(isinstance(x, (ast.Name, ast.Attribute)) for x in facs)
     obs.append(ob("ALPHA", "the factor multiplies the whole step once", f, rets[0] if rets else f.node, okr,
                   f"returns {short(rets[0].value) if rets else '?'}", construct="return xc + alpha * Z @ dHat"))
     return obs
@@ -600,6 +618,9 @@ def rule_free(ctx: Ctx) -> List[Ob]:
                     zsrc.append(src(st_.value))
                 if isinstance(t_, ast.Subscript) and src(t_.value) in znames:
                     zsrc.append(src(t_.slice))
+                    # the entries written are ones (a selection matrix), nothing else
+                    if not (isinstance(st_.value, ast.Constant) and not isinstance(st_.value.value, bool) and st_.value.value == 1):
+                        zsrc.append(f"<value {src(st_.value)}: not 1>")
         return zname, zsrc, bool(zsrc) and all(want in z and avoid not in z for z in zsrc)
 
     zname, zsrc, okzz = built_from(1, "free_vars", "active_vars")
